@@ -169,6 +169,43 @@ def generator_scenario(seed):
     return out
 
 
+
+def genrun_trace(plan):
+    """plan: [(param value, 'ok' | 'raise' | 'none')] — calls of one generator whose body behaves as planned each time it runs.
+    -> per call: result (module number by identity / failed), the cache's done keys, pending and stack sizes."""
+    mode = {"now": "ok"}
+    mods = []
+
+    @h.paramclass
+    class P:
+        w = h.Param(dtype=int, desc="w")
+
+    @h.generator
+    def G(p: P) -> h.Module:
+        if mode["now"] == "raise":
+            raise ValueError("planned failure")
+        if mode["now"] == "none":
+            return None
+        m = h.Module()
+        m.a = h.Port(width=p.w + 1)
+        return m
+
+    cache = h.generator.cache
+    trace = []
+    for w, what in plan:
+        mode["now"] = what
+        try:
+            m = G(w=w)
+            if not any(m is x for x in mods):
+                mods.append(m)
+            res = {"module": next(k for k, x in enumerate(mods) if x is m)}
+        except Exception as ex:  # noqa
+            res = "failed"
+        done = sorted(c.params.w for c in cache.done if c.gen is G)
+        trace.append({"result": res, "done": done, "pending": len(cache.pending), "stack": len(cache.stack)})
+    return trace
+
+
 def run(ctx):
     rep, rng = ctx.rep, ctx.rng
     rep.extra["rule"] = (
@@ -266,6 +303,40 @@ def run(ctx):
             rep.fail("pred", case, {"why": "a generator whose body raised once cannot be run again", "result": r})
         elif r["second"]["ok"][1] != 2 or r["third"] != r["second"] or "ok" not in r["other_params"]:
             rep.fail("pred", case, {"why": "generator cache inconsistent after a failure", "result": r})
+    # generator calls against the GenRun model: random plans of failing / returning bodies over a few parameter values
+    plans = [[(rng.randrange(3), rng.choice(["ok", "ok", "raise", "none"])) for _ in range(rng.randint(2, 9))] for _ in range(20 if ctx.quick else 300)]
+    traces = common.pmap_fresh(genrun_trace, plans)
+    lines = []
+    for plan in plans:
+        nxt, calls = 0, []
+        given = {}
+        for w, what in plan:
+            if what == "ok":
+                # the module number the implementation would mint next, if the body runs
+                calls.append({"c": w, "ok": 0})
+            else:
+                calls.append({"c": w})
+        lines.append({"prop": "GEN", "op": "genrun", "calls": calls})
+    for plan, tr, mo in zip(plans, traces, ctx.drv.run(lines)):
+        case = {"stream": "genrun", "plan": plan}
+        rep.count("genrun", json.dumps(plan))
+        seen = {}
+        for k, ((w, what), got, want) in enumerate(zip(plan, tr, mo["trace"])):
+            wres = want["result"]
+            ok_model = isinstance(wres, dict)
+            ok_impl = isinstance(got["result"], dict)
+            if ok_model != ok_impl:
+                rep.fail("pred" if not ok_impl else "corr", case, {"why": f"call {k} ({w}, body {what}): model {wres}, implementation {got['result']}"})
+                break
+            if ok_impl:
+                # equal parameters -> the identical module, every time; different parameters -> different modules
+                prev = seen.setdefault(w, got["result"]["module"])
+                if prev != got["result"]["module"] or list(seen.values()).count(prev) != 1:
+                    rep.fail("pred", case, {"why": f"call {k}: module identity is not a function of the parameters", "seen": seen, "got": got["result"]})
+                    break
+            if sorted(x[0] for x in want["done"]) != got["done"] or got["pending"] != 0 or got["stack"] != 0 or want["pending"] != 0:
+                rep.fail("pred", case, {"why": f"after call {k} the generator cache is not what the calls so far leave behind", "model": want, "impl": got})
+                break
     rep.extra["scenarios"] = len(jobs)
     if jobs:
         rep.sample({"scenario": {k: v for k, v in jobs[0].items() if k not in ("unrelated", "design")}, "result": results[0]})
